@@ -28,6 +28,7 @@ type c15Conv struct {
 	clause  string // expected package clause ("" = not judged)
 	pkgID   string // package identity for the same-file agreement rule
 	lines   []string
+	varName string // name of the function variable of a variables block (default Convert<name>)
 }
 
 var nonAlnum = regexp.MustCompile(`[^a-z0-9]`)
@@ -100,6 +101,19 @@ func C15(e *core.Env) int {
 			if r.Intn(3) == 0 {
 				s.conflict = true
 			}
+		}
+		if i == 9 || i == 14 || (i > 20 && i%50 == 4) {
+			// fixed shape: two variables blocks of different packages, both with a variable called Convert, merged
+			// into one file elsewhere (the variables live in their own packages, the names do not clash)
+			for len(s.convs) < 2 {
+				s.convs = append(s.convs, &c15Conv{name: fmt.Sprintf("C%c", 'A'+len(s.convs)), fileForm: "default", pkgForm: "absent"})
+			}
+			s.convs[0].pkgDir, s.convs[1].pkgDir = "a", "b/c"
+			s.convs[0].vars, s.convs[1].vars = true, true
+			s.convs[0].varName, s.convs[1].varName = "Convert", "Convert"
+			s.convs[0].fileForm, s.convs[1].fileForm = []string{"cwd", "parent"}[i%2], "sharedwith0"
+			s.convs[0].pkgForm, s.convs[0].existing, s.convs[1].existing = "absent", "", ""
+			s.conflict = false
 		}
 		if i == 8 || i == 13 || (i > 20 && i%50 == 3) {
 			// fixed shape for the CLI-level output:package PATH:NAME below: every converter overrides it with a
@@ -297,7 +311,11 @@ func C15(e *core.Env) int {
 				for _, l := range c.lines {
 					sb.WriteString("// goverter:" + l + "\n")
 				}
-				fmt.Fprintf(sb, "var (\n\tConvert%s func(source In%s) Out%s\n)\n\n", c.name, c.name, c.name)
+				vn := c.varName
+				if vn == "" {
+					vn = "Convert" + c.name
+				}
+				fmt.Fprintf(sb, "var (\n\t%s func(source In%s) Out%s\n)\n\n", vn, c.name, c.name)
 			} else {
 				sb.WriteString("// goverter:converter\n")
 				for _, l := range c.lines {
